@@ -120,6 +120,8 @@ class FormatTraceback(Contract):
 
 
 CONTRACTS = [FormatEvent, FormatTraceback]
+for _k in CONTRACTS:
+    _k.replay_decides = False  # the hostile call-outs (flatFormat, formatWithCall, decode, str of a value) raise by a choice that is not an input
 BOUNDED = bounded("C55")
 _SCOPE = ("formatEvent / eventAsText / formatEventAsClassicLogText / formatUnformattableEvent and the legacy "
           "textFromEventDict / _safeFormat on a grammar of format strings (every string over {}a.[]()!:r0 up to length 4, "
